@@ -44,6 +44,8 @@ fn enc_variants(rng: &mut Rng) -> Vec<EncVariant> {
         EncVariant::Raw { secret: rng.bytes(128), token: rng.bytes(128) },
         EncVariant::Raw { secret: rng.bytes(129), token: rng.bytes(129) },
         EncVariant::Raw { secret: rng.bytes(256), token: rng.bytes(256) },
+        EncVariant::ClearToken,
+        EncVariant::ClearSecret,
         EncVariant::SecretLen(0),
         EncVariant::SecretLen(15),
         EncVariant::SecretLen(17),
